@@ -8,6 +8,10 @@ C16  Asynchronous requests (set_data / get_data).
                         precedence over remembered values) and clears them, so no later step sees them
 * `delivered_after_t` : every step A begins after B has begun `tb` lies after `tb` (adapted by the connection's delay): the
                         values B sets during its step at `tb` arrive in a step of A *after* `tb`
+* `get_data_*`        : the data path of an accepted get_data (`MosaikRemote.get_data`): every requested attribute is answered
+                        from the cache slice or forwarded to the other simulator, never both; cached values survive the merge
+                        with the forwarded reply; with `cache=False` everything is forwarded; the slice is the other
+                        simulator's output history at the requester's *last* step (which, inside a step, is the previous one)
 * `order`             : when A (with async connection A → B) begins a step at `t`, B's progress has
                         reached `t`; so while B's step at `tb` is in flight A begins no step later
                         than `tb`
@@ -16,6 +20,7 @@ import MosaikProofs.Properties.C03
 import MosaikProofs.Properties.C01
 import MosaikProofs.Sched.Errors
 import MosaikProofs.Build.Invariant
+import MosaikProofs.Sched.AsyncGet
 namespace Mosaik.C16
 open Mosaik
 
@@ -176,5 +181,53 @@ theorem connect_registers_async (w : World) (c : ConnectCall) (hs : c.src < w.si
     (hasync : c.asyncReq = true) :
     (∃ d, (c.dst, d) ∈ ((w.connect c).1.sim c.src).succs) ∧ (∃ d, (c.dst, d) ∈ ((w.connect c).1.sim c.src).succsWait) :=
   Build.connect_async_registers w c hs hd hasync
+
+/-! ### the data path of an accepted `get_data`
+
+(The property's statement is about `set_data` delivery, ordering and admission; what an accepted `get_data` *returns* is glue the
+model covers as well: `asyncSlice` / `asyncFound` / `asyncMissing` / `asyncAnswer`, compared with `MosaikRemote.get_data` on every
+generated request by the driver command `aget`.) -/
+
+/-- every requested attribute is answered from the cache slice or forwarded to the other simulator, never both -/
+theorem get_data_found_or_forwarded (cfg : Cfg) (s : State) (p target : Sid) (req : List Port) (r : Port) (hr : r ∈ req) :
+    (∃ v, OutData.get? (asyncFound cfg s p target req) r = some v ∧ r ∉ asyncMissing cfg s p target req) ∨
+    (OutData.get? (asyncFound cfg s p target req) r = none ∧ r ∈ asyncMissing cfg s p target req) :=
+  found_or_missing cfg s p target req r hr
+
+/-- a value found in the cache is handed to the requester whatever else the same entity has to be asked for — unless the other
+simulator's reply mentions the very attribute -/
+theorem get_data_cached_value_kept (cfg : Cfg) (s : State) (p target : Sid) (req : List Port) (direct : OutData) (r : Port) (v : Val)
+    (hr : r ∈ req) (hv : OutData.get? (asyncSlice cfg s p target) r = some v) (hd : ∀ e ∈ direct, e.1 ≠ r) :
+    OutData.get? (asyncAnswer cfg s p target req direct) r = some v := by
+  rw [asyncAnswer_found_kept cfg s p target req direct r hd, get?_asyncFound]
+  simp [hr, hv]
+
+/-- what the other simulator answers for a forwarded attribute is handed on -/
+theorem get_data_forwarded_value (cfg : Cfg) (s : State) (p target : Sid) (req : List Port) (pre rest : OutData) (e : Port × Val)
+    (hm : asyncMissing cfg s p target req ≠ []) (hrest : ∀ f ∈ rest, f.1 ≠ e.1) :
+    OutData.get? (asyncAnswer cfg s p target req (pre ++ e :: rest)) e.1 = some e.2 :=
+  asyncAnswer_direct cfg s p target req pre rest e hm hrest
+
+/-- `cache=False`: the whole request is forwarded -/
+theorem get_data_nocache (cfg : Cfg) (s : State) (p target : Sid) (req : List Port) (hc : cfg.useCache = false) :
+    asyncFound cfg s p target req = [] ∧ asyncMissing cfg s p target req = req :=
+  asyncMissing_nocache cfg s p target req hc
+
+/-- `cache=True`, any run whose output times do not go back: the slice read is the entry of the other simulator's never-pruned
+output history that is newest at or before the requester's `last_step` — inside a step that is the step *before* the running
+one (−1 before the first: nothing is found and everything is forwarded) -/
+theorem get_data_reads_history {cfg : Cfg} (hw : WFCfg cfg) (hc : cfg.useCache = true) (hi : InitSorted cfg) {s : State}
+    (hr : ReachM cfg s) (hnf : s.failed = none) {p target : Sid} (hp : p < cfg.n) (ht : target < cfg.n) :
+    asyncSlice cfg s p target = getOutputFor (histOf cfg target s.log) (lastTime s p) :=
+  asyncSlice_history hw hc hi hr hnf hp ht
+
+/-- non-vacuity: a request for a cached and an uncached attribute of one entity; the other simulator answers the uncached one -/
+example :
+    let cfg : Cfg := { sims := [{ outputs0 := [(0, [((0, 2), some 7)])] }, {}], useCache := true }
+    let s := initState cfg
+    let s1 := s.upd 1 fun x => { x with last := some [0] }
+    asyncMissing cfg s1 1 0 [(0, 2), (0, 3)] = [(0, 3)] ∧
+    asyncAnswer cfg s1 1 0 [(0, 2), (0, 3)] [((0, 3), some 9)] = [((0, 2), some 7), ((0, 3), some 9)] := by
+  decide
 
 end Mosaik.C16
